@@ -29,6 +29,7 @@ def ob_parallel_displacement(env):
     """delta_x parallel to grad(psi)  =>  sinBeta = 0, cosBeta^2 = 1 (real calcBeta)"""
     with sym_numpy(env):
         r = stub_region(1, 1, False)
+        r.bpsign = 1.0 if env.choose(2) == 0 else -1.0
         gR, gZ = env.real("gradpsi_R"), env.real("gradpsi_Z")
         env.assume(gR * gR + gZ * gZ > 0, "grad psi != 0")
         lam = env.real("lambda")
